@@ -69,13 +69,15 @@ if w.get("op") == "two-drivers":
                 bad.append(f"vectorized job of driver nprocs={n} prepared {vin[0].commands[0][0]!r}")
 elif w.get("op") == "jobinput":
     d = tempfile.mkdtemp()
-    for files in ({"in.txt": "hello text", "in.bin": b"\x00\x01"}, {"in.bin": b"\x02"}, None):
-        a = JobInput("jid", commands=[("echo 1", "c0"), ("echo 2", None)], files=files, return_files=("r1", "r2"), envars={"OMP_NUM_THREADS": "4"}, timeout=10.0)
+    for files, tmo in (({"in.txt": "hello text", "in.bin": b"\x00\x01"}, 10.0), ({"in.bin": b"\x02"}, 0.1), (None, 7.3), (None, None)):
+        a = JobInput("jid", commands=[("echo 1", "c0"), ("echo 2", None)], files=files, return_files=("r1", "r2"), envars={"OMP_NUM_THREADS": "4"}, timeout=tmo)
         fn = os.path.join(d, "j.inp")
         a.dump(fn)
         b = JobInput.load(fn)
         if b.hash != a.hash:
-            bad.append(f"JobInput.load(dump(x)).hash differs from x.hash (files={None if files is None else {k: type(v).__name__ for k, v in files.items()}})")
+            bad.append(f"JobInput.load(dump(x)).hash differs from x.hash (files={None if files is None else {k: type(v).__name__ for k, v in files.items()}}, timeout={tmo})")
+        if b.timeout != a.timeout:
+            bad.append(f"timeout {a.timeout} comes back from dump/load as {b.timeout}")
         if (b.files or {}).get("in.txt", None) != (files or {}).get("in.txt", None):
             bad.append("a text input file does not survive dump/load")
         for fld, other in (("envars", {"OMP_NUM_THREADS": "8"}), ("timeout", 99.0), ("return_files", ("r1",)), ("jid", "other")):
@@ -88,6 +90,16 @@ elif w.get("op") == "driver-init":
         d = DriverBase("sh" if w.get("found") else "no-such-exe-xyz", nprocs=3, memory=5, check_exe=w.get("check_exe"), find=w.get("find"))
         if d.nprocs != 3 or d.memory != 5 or not d.executable:
             bad.append(f"driver settings lost: {d.executable!r}, {d.nprocs}, {d.memory}")
+        # an executable reached through a symbolic link is used under the name it was given / found, not under the link's target
+        dl = tempfile.mkdtemp()
+        real, link = os.path.join(dl, "real-tool"), os.path.join(dl, "tool")
+        open(real, "w").write("#!/bin/sh\necho $0\n")
+        os.chmod(real, 0o755)
+        os.symlink(real, link)
+        for find in (True, False):
+            dd = DriverBase(link, nprocs=1, memory=1, check_exe=True, find=find)
+            if os.path.basename(str(dd.executable)) != "tool":
+                bad.append(f"DriverBase({link!r}, find={find}) builds commands with {dd.executable!r} (the link's target)")
     except FileNotFoundError:
         if not (w.get("check_exe") and not w.get("found")):
             bad.append("FileNotFoundError although the executable check was off or the executable exists")
@@ -148,7 +160,8 @@ elif w.get("op") == "run_local":
         bad.append(f"rerun scenario: {type(e).__name__}: {e}")
     # the job's environment wins over the runner's own; a command killed by the time limit is a failed command
     d2 = tempfile.mkdtemp()
-    j2 = JobInput("env", commands=[("sh -c 'echo $JV; touch r1 r2'", "c0")], return_files=("r1", "r2"), envars={"JV": "from-the-job"})
+    j2 = JobInput("env", commands=[("sh -c 'echo $JV; touch r1 r2'", "c0"), ("sh -c 'echo \"$LIT\"'", "c1")], return_files=("r1", "r2"),
+                  envars={"JV": "from-the-job", "LIT": "costs $HOME and ${PATH}"})
     j2.dump(os.path.join(d2, "job.inp"))
     r2 = subprocess.run([exe, os.path.join(d2, "job.inp"), "-o", os.path.join(d2, "out"), "-s", os.path.join(d2, "scr")], capture_output=True, text=True,
                         timeout=120, env={**os.environ, "JV": "from-the-runner"})
@@ -156,6 +169,8 @@ elif w.get("op") == "run_local":
         o2 = JobOutput.load(os.path.join(d2, "out", "job.out"))
         if o2.stdouts.get("c0", "").strip() != "from-the-job":
             bad.append(f"the job asked for JV=from-the-job but its command ran with JV={o2.stdouts.get('c0', '').strip()!r} (the runner's own value)")
+        if o2.stdouts.get("c1", "").strip() != "costs $HOME and ${PATH}":
+            bad.append(f"the job asked for LIT='costs $HOME and ${{PATH}}' but its command saw {o2.stdouts.get('c1', '').strip()[:60]!r}")
     except BaseException as e:
         bad.append(f"environment scenario: no output record ({type(e).__name__})")
     d3 = tempfile.mkdtemp()
